@@ -148,9 +148,14 @@ func (s *SelectStatement) ToStreamConfig() (*types.Config, string, error) {
 		// If SELECT * query, set special marker
 		if s.SelectAll {
 			simpleFields = append(simpleFields, "*")
-		} else {
+		}
+		// Columns listed next to "*" (SELECT *, a AS x, d.x AS y) are projected as well.
+		{
 			for _, field := range otherFields {
 				fieldName := field.Expression
+				if strings.TrimSpace(fieldName) == "*" {
+					continue
+				}
 				if field.Alias != "" {
 					// If has alias, use alias as field name
 					simpleFields = append(simpleFields, fieldName+":"+field.Alias)
